@@ -546,7 +546,7 @@ def scr_term(S, enc, i, tr):
         k = 29 if 'float32' in e[4] else 0
         return f'(ScrUniform {k} {fbits(lo)} {fbits(hi)} {zl([fbits(x) for x in np.asarray(draws).tolist()])})'
     if sk in ('i3time', 'seasonal'):
-        return f"(ScrI3Time {zl(enc.col(cols['time']))} {zl(enc.col(cols['ra']))})"
+        return f"({'ScrI3Time' if sk == 'i3time' else 'ScrSeasonal'} {zl(enc.col(cols['time']))} {zl(enc.col(cols['ra']))})"
     return f"(ScrTime {zl(enc.col(cols['time']))} {zl(enc.col(cols['ra']))} {zl(enc.col(cols['dec']))})"
 
 
@@ -1122,6 +1122,71 @@ def seasonal_probe(ctx):
     return exprs, impl, cases
 
 
+def time_ra_probe(ctx):
+    """every time based scrambling method, float32 and float64 `ra` fields, crafted azimuths so that the float64
+    right ascension is exactly 0 / within one float32 ulp below 2 pi: what is STORED in `ra` (in the dtype it is stored
+    in) must be inside [0, 2 pi) and must be the transform result itself (C07_time_ra_in_range's model)"""
+    from skyllh.core.dataset import DatasetData
+    from skyllh.i3.dataset import I3DatasetData
+    from skyllh.core.scrambling import TimeScramblingMethod
+    from skyllh.core.times import TimeGenerator, TimeGenerationMethod
+    from skyllh.i3.scrambling import I3TimeScramblingMethod, I3SeasonalVariationTimeScramblingMethod
+    from skyllh.i3.utils.coords import azi_to_ra_transform, hor_to_equ_transform
+    from skyllh.core.storage import DataFieldRecordArray as DFRA
+    two_pi = 2 * math.pi
+    deltas = [0.0, 1e-12, 1e-9, 1e-8, 3e-8, 5e-8, 6.3e-8, 6.5e-8, 1e-7, 2.4e-7, 4.8e-7, 1e-6, 1.0, 3.0]
+    mjds = np.array([58000.0 + 0.37 * j + 0.0123 * j * j for j in range(len(deltas))])
+    theta = azi_to_ra_transform(np.zeros(len(mjds)), mjds)          # sidereal angle of each time, in [0, 2 pi)
+    azi = np.mod(theta + np.array(deltas), two_pi)                   # ra = 2 pi - delta (up to rounding), 0 for delta 0
+    n = len(mjds)
+
+    class TG(TimeGenerationMethod):
+        def generate_times(self, rss, size):
+            return mjds.copy()
+
+    class R:
+        def choice(self, a, size=None, p=None):
+            return np.zeros(n, dtype=np.int64)
+
+        def uniform(self, lo, hi, size=None):
+            return mjds.copy()
+
+    class RSS:
+        random = R()
+    for kind in ('i3time', 'seasonal', 'coretime'):
+        for dt in (np.float32, np.float64):
+            exp = DFRA({'time': np.full(n, 58001.0), 'azi': azi.copy(), 'zen': np.linspace(0.1, 3.0, n),
+                        'ra': np.linspace(0.1, 6.0, n).astype(dt), 'dec': np.zeros(n, dtype=np.float32),
+                        'user_q': np.arange(n, dtype=np.int16)}, copy=False)
+            if kind == 'i3time':
+                m = I3TimeScramblingMethod(TimeGenerator(TG()))
+            elif kind == 'coretime':
+                m = TimeScramblingMethod(timegen=TimeGenerator(TG()), hor_to_equ_transform=hor_to_equ_transform)
+            else:
+                grl = DFRA({'start': np.array([57990.0]), 'stop': np.array([58100.0])}, copy=False)
+                m = I3SeasonalVariationTimeScramblingMethod(
+                    I3DatasetData(DatasetData(data_exp=exp.copy(), data_mc=exp.copy(), livetime=1.), grl))
+            want = azi_to_ra_transform(azi.copy(), mjds.copy())
+            m.scramble(RSS(), None, exp)
+            stored = exp['ra']
+            vals = [float(v) for v in stored]
+            case = {'kind': 'time-ra', 'method': kind, 'ra_dtype': np.dtype(dt).name,
+                    'azi': [float(x).hex() for x in azi], 'mjd': [float(x).hex() for x in mjds]}
+            ctx.case(case)
+            ctx.count(f'time-ra:{kind}:{np.dtype(dt).name}')
+            ctx.corr_cases += 1
+            if any(not (0.0 <= w < two_pi) for w in want.tolist()):
+                ctx.notes.append('azi_to_ra_transform left [0, 2pi) on a probe input (premise of C07_time_ra_in_range, C19)')
+            bad = [v.hex() for v in vals if not (0.0 <= v < two_pi)]
+            if bad:
+                ctx.violation('scramble:' + kind, 'ra-out-of-range',
+                              f'stored ra (dtype {stored.dtype}) outside [0, 2pi)', case=case, impl=bad[:5],
+                              predicate='0 <= ra < 2pi in the dtype the field is stored in')
+            if [fbits(v) for v in vals] != [fbits(w) for w in want.tolist()]:
+                ctx.disagree('alias.time_ra_store', case, [v.hex() for v in vals][:6], [float(w).hex() for w in want][:6],
+                             detail='the stored ra column is not the transform result itself (model: ScrI3Time/ScrSeasonal/ScrTime)')
+
+
 # ---------------------------------------------------------------------------- entry points
 def run_sessions(ctx, sessions, tag):
     install_spies()
@@ -1180,6 +1245,8 @@ def run(ctx):
                     ctx.disagree('alias.seasonal_masks', c, a, [list(x) for x in v], detail='run masks differ')
         except RuntimeError as ex:
             ctx.broken.append({'kind': 'model-eval', 'error': str(ex)[:1500]})
+    # 1c. RA write-back of the time based scrambling methods
+    time_ra_probe(ctx)
     # 2. sessions
     n = ctx.budget(20, 360)
     sessions = corpus_sessions()
@@ -1198,6 +1265,8 @@ def replay(ctx, rp):
         return replay_narrow(ctx, c)
     if c.get('kind') == 'seasonal':
         return seasonal_probe(ctx)
+    if c.get('kind') == 'time-ra':
+        return time_ra_probe(ctx)
     if 'calls' in c and 'cfg' in c:
         s = {'cfg': c['cfg'], 'calls': c['calls'], 'mean_sig': c.get('mean_sig', 3)}
         for d in s['cfg']['ds']:
